@@ -148,6 +148,9 @@ func GenHs(r *vh.Rng, tier string) [][3]string {
 	if tier == "thorough" {
 		n = 2000
 	}
+	if tier == "one" {
+		out, n = nil, 1
+	}
 	for i := 0; i < n; i++ {
 		a := hsAuths[r.Intn(3)]
 		ks := []string{"0", "1"}[r.Intn(2)]
